@@ -146,6 +146,12 @@ def run(ctx):
     okc = len(vals) == 1 and isinstance(vals[0], ast.Call) and is_self_attr(vals[0].func, LISTER) and vals[0].args and enum_member(vals[0].args[0]) == ('Operation', 'LOCATE')
     ctx.check(okc and objv is not None, 'C14.R1', 'KmipEngine._process_locate|candidates', m.site(OL.stmt, fn), 'candidates = access-filtered list for Operation.LOCATE',
               'the filter loop does not iterate the access-filtered candidate list')
+    # every candidate is examined: nothing leaves the object loop early (the newest matches are at the end of the store order; sort and slice come after)
+    ctx.rule('C14.R8', 'the loop over the candidate objects examines every candidate: no break or return leaves it (break inside the per-attribute loop only ends the examination of one object), so the list handed to the newest-first sort and the offset/maximum slice holds every match')
+    leavers = [n for n in g.nodes if n.kind == 'stmt' and OL.stmt in n.loops and (
+        (isinstance(n.stmt, ast.Break) and n.loops and n.loops[-1] is OL.stmt) or isinstance(n.stmt, ast.Return))]
+    ctx.check(not leavers, 'C14.R8', 'KmipEngine._process_locate|object-loop-runs-to-the-end', m.site(OL.stmt, fn), 'no break/return leaves the object loop',
+              'the object loop can be left early (line %s): matches further on in the store order - the newest ones - are never collected, so the sorted, sliced result is not a slice of the full result' % sorted(n.line for n in leavers))
     inner = [l for l in loops if OL.stmt in l.loops and U(l.stmt.iter) == '%s.attributes' % pay]
     ctx.need(len(inner) == 1, 'unrecognised construct: Locate has no single loop over payload.attributes inside the object loop')
     IL = inner[0]
